@@ -2,7 +2,7 @@
 from common_props import COMMON_TRUSTED
 
 CFG = {
-    "engines": [["fragck", 250, 3000]],
+    "engines": [["fragck", 250, 3000], ["relayappend", 40, 500]],
     "rule": "fragck/crc: random and boundary byte strings, split at arbitrary points, both polynomials, arbitrary initial values, "
             "against hash/crc32; fragck-writer: every fragment of writer scripts as in C01 against an independently computed "
             "running CRC; fragck-corrupt: for messages from the real writer, one byte of one fragment altered (argument byte or "
